@@ -245,7 +245,7 @@ pub struct Plan {
 }
 impl Plan {
     pub fn new(cases: u64, tape_len: usize) -> Plan {
-        Plan { cases, chunk: (cases / 64).clamp(50, 2000), tape_len, max_shrink_iters: 300, case_timeout_s: 30, mem_limit_mb: 6144 }
+        Plan { cases, chunk: (cases / 64).clamp(50, 2000), tape_len, max_shrink_iters: 300, case_timeout_s: 30, mem_limit_mb: 4096 }
     }
 }
 
@@ -305,24 +305,205 @@ fn set_mem_limit(mb: u64) {
     }
 }
 
+// ---- death diagnostics: when a case runs away (time or memory) the watchdog interrupts the evaluating
+// thread with SIGUSR1; the handler captures that thread's backtrace, derives the dominant frame of the
+// code under test (the "call site" of the runaway) and exits. The parent reads it from the marker file.
+static DEATH_MARKER: std::sync::OnceLock<PathBuf> = std::sync::OnceLock::new();
+static DEATH_CLASS: AtomicU64 = AtomicU64::new(0); // 1 = timeout, 2 = memory
+static EVAL_THREAD: AtomicU64 = AtomicU64::new(0);
+
+fn dominant_frame(bt: &str) -> String {
+    let mut counts: BTreeMap<String, usize> = BTreeMap::new();
+    let mut order: Vec<String> = Vec::new();
+    for line in bt.lines() {
+        let l = line.trim();
+        // frames look like "12: sylt_compiler::typechecker::TypeChecker::inner_copy"
+        if let Some(pos) = l.find("sylt_") {
+            let sym: String = l[pos..].chars().take_while(|c| !c.is_whitespace()).collect();
+            // strip hash suffix ::h0123...
+            let sym = match sym.rfind("::h") {
+                Some(i) if sym[i + 3..].chars().all(|c| c.is_ascii_hexdigit()) => sym[..i].to_string(),
+                _ => sym,
+            };
+            if sym.starts_with("sylt_macro") {
+                continue;
+            }
+            if !counts.contains_key(&sym) {
+                order.push(sym.clone());
+            }
+            *counts.entry(sym).or_default() += 1;
+        }
+    }
+    // the runaway site: the innermost function of the code under test that is recursive in this stack
+    // (appears at least twice); failing that, the innermost frame
+    for sym in &order {
+        if counts[sym] >= 2 {
+            return sym.clone();
+        }
+    }
+    order.first().cloned().unwrap_or_else(|| "unknown".to_string())
+}
+
+static MARKER_CSTR: std::sync::OnceLock<std::ffi::CString> = std::sync::OnceLock::new();
+
+extern "C" {
+    fn backtrace(buf: *mut *mut libc::c_void, size: libc::c_int) -> libc::c_int;
+    fn backtrace_symbols_fd(buf: *const *mut libc::c_void, size: libc::c_int, fd: libc::c_int);
+}
+
+/// async-signal-safe: no allocation (the interrupted thread is usually inside malloc)
+extern "C" fn death_handler(_sig: libc::c_int) {
+    unsafe {
+        if let Some(path) = MARKER_CSTR.get() {
+            let fd = libc::open(path.as_ptr(), libc::O_WRONLY | libc::O_CREAT | libc::O_TRUNC, 0o644);
+            if fd >= 0 {
+                let head: &[u8] = if DEATH_CLASS.load(Ordering::Relaxed) == 2 { b"memory\n" } else { b"timeout\n" };
+                libc::write(fd, head.as_ptr() as *const libc::c_void, head.len());
+                let mut buf: [*mut libc::c_void; 400] = [std::ptr::null_mut(); 400];
+                let n = backtrace(buf.as_mut_ptr(), 400);
+                backtrace_symbols_fd(buf.as_ptr(), n, fd);
+                libc::close(fd);
+            }
+        }
+        libc::_exit(97);
+    }
+}
+
+/// crude demangling of legacy Rust symbols (_ZN<len><ident>...E), dropping the hash component
+fn demangle(sym: &str) -> String {
+    let b = sym.as_bytes();
+    if !sym.starts_with("_ZN") {
+        return sym.to_string();
+    }
+    let mut i = 3;
+    let mut parts: Vec<String> = Vec::new();
+    while i < b.len() && b[i] != b'E' {
+        let mut n = 0usize;
+        let st = i;
+        while i < b.len() && b[i].is_ascii_digit() {
+            n = n * 10 + (b[i] - b'0') as usize;
+            i += 1;
+        }
+        if i == st || i + n > b.len() {
+            break;
+        }
+        let part = &sym[i..i + n];
+        i += n;
+        if part.len() == 17 && part.starts_with('h') && part[1..].chars().all(|c| c.is_ascii_hexdigit()) {
+            continue;
+        }
+        parts.push(part.replace("$LT$", "<").replace("$GT$", ">").replace("$u20$", " ").replace("..", "::"));
+    }
+    parts.join("::")
+}
+
+/// the most frequent frame of the code under test in a backtrace_symbols_fd dump; offsets into this
+/// executable are symbolised with llvm-symbolizer (symbol table only; no debug info needed)
+fn dominant_frame_raw(txt: &str) -> String {
+    let exe = match std::env::current_exe() {
+        Ok(e) => e,
+        Err(_) => return "unknown".into(),
+    };
+    let exe_s = exe.to_string_lossy().to_string();
+    let mut offsets: Vec<String> = Vec::new();
+    for line in txt.lines() {
+        if !line.starts_with(&exe_s) {
+            continue;
+        }
+        if let (Some(a), Some(b)) = (line.find("(+0x"), line.find(")[")) {
+            if a < b {
+                offsets.push(line[a + 2..b].to_string());
+            }
+        } else if let (Some(a), Some(b)) = (line.find('('), line.find('+')) {
+            // named frame
+            if a < b {
+                offsets.push(format!("NAME:{}", demangle(&line[a + 1..b])));
+            }
+        }
+    }
+    let mut pretty = String::new();
+    let real: Vec<&String> = offsets.iter().filter(|o| !o.starts_with("NAME:")).collect();
+    let mut names: Vec<String> = Vec::new();
+    if !real.is_empty() {
+        for tool in ["llvm-symbolizer", "llvm-symbolizer-14"] {
+            let out = std::process::Command::new(tool).arg("-e").arg(&exe).arg("-f").arg("-C").args(real.iter().map(|s| s.as_str())).output();
+            if let Ok(o) = out {
+                if o.status.success() {
+                    let t = String::from_utf8_lossy(&o.stdout).to_string();
+                    // groups of: function name / file:line / blank
+                    let mut lines = t.lines();
+                    while let Some(f) = lines.next() {
+                        names.push(f.to_string());
+                        let _ = lines.next();
+                        let _ = lines.next();
+                    }
+                    break;
+                }
+            }
+        }
+    }
+    let mut ni = 0;
+    for o in &offsets {
+        if let Some(n) = o.strip_prefix("NAME:") {
+            pretty.push_str(n);
+        } else if ni < names.len() {
+            pretty.push_str(&names[ni]);
+            ni += 1;
+        }
+        pretty.push('\n');
+    }
+    dominant_frame(&pretty)
+}
+
+fn rss_bytes() -> u64 {
+    std::fs::read_to_string("/proc/self/statm")
+        .ok()
+        .and_then(|s| s.split_whitespace().nth(1).and_then(|x| x.parse::<u64>().ok()))
+        .map(|pages| pages * 4096)
+        .unwrap_or(0)
+}
+
 struct Watchdog {
     started_ms: Arc<AtomicU64>,
     epoch: Instant,
 }
 impl Watchdog {
-    fn start(limit_s: u64, marker: PathBuf) -> Watchdog {
+    /// must be called on the thread that evaluates cases
+    fn start(limit_s: u64, mem_soft_mb: u64, marker: PathBuf) -> Watchdog {
+        let _ = DEATH_MARKER.set(marker.clone());
+        let _ = MARKER_CSTR.set(std::ffi::CString::new(marker.to_string_lossy().as_bytes()).unwrap());
+        unsafe {
+            // first call loads the unwinder; later calls do not allocate
+            let mut warm: [*mut libc::c_void; 4] = [std::ptr::null_mut(); 4];
+            backtrace(warm.as_mut_ptr(), 4);
+            EVAL_THREAD.store(libc::pthread_self() as u64, Ordering::SeqCst);
+            libc::signal(libc::SIGUSR1, death_handler as usize);
+        }
         let started_ms = Arc::new(AtomicU64::new(0));
         let epoch = Instant::now();
         let s2 = started_ms.clone();
         std::thread::spawn(move || loop {
-            std::thread::sleep(Duration::from_millis(200));
+            std::thread::sleep(Duration::from_millis(100));
             let st = s2.load(Ordering::Relaxed);
+            let mut class = 0;
             if st != 0 {
                 let now = epoch.elapsed().as_millis() as u64;
                 if now.saturating_sub(st) > limit_s * 1000 {
-                    let _ = std::fs::write(&marker, b"timeout");
-                    unsafe { libc::_exit(97) };
+                    class = 1;
                 }
+            }
+            if class == 0 && rss_bytes() > (mem_soft_mb << 20) {
+                class = 2;
+            }
+            if class != 0 {
+                DEATH_CLASS.store(class, Ordering::SeqCst);
+                unsafe {
+                    libc::pthread_kill(EVAL_THREAD.load(Ordering::SeqCst) as libc::pthread_t, libc::SIGUSR1);
+                }
+                // fallback if the handler does not get to run
+                std::thread::sleep(Duration::from_secs(10));
+                let _ = std::fs::write(&marker, if class == 2 { "memory\nunknown\n" } else { "timeout\nunknown\n" });
+                unsafe { libc::_exit(97) };
             }
         });
         Watchdog { started_ms, epoch }
@@ -347,10 +528,10 @@ fn chunk_seed(cfg: &RunCfg, id: &str, chunk: u64) -> u64 {
 }
 
 /// Runs one chunk of generated cases in this (child) process and writes the result file.
-fn child_chunk<C: Check>(check: &C, cfg: &RunCfg, plan: &Plan, chunk: u64, cases: u64, open_sigs: &[String], out: &Path) -> i32 {
+fn child_chunk<C: Check>(check: &C, cfg: &RunCfg, plan: &Plan, chunk: u64, cases: u64, open_sigs: &[String], skip: &[u64], out: &Path) -> i32 {
     set_mem_limit(plan.mem_limit_mb);
     let cur = out.with_extension("cur");
-    let wd = Watchdog::start(plan.case_timeout_s, out.with_extension("timeout"));
+    let wd = Watchdog::start(plan.case_timeout_s, plan.mem_limit_mb / 2, out.with_extension("timeout"));
     let stats = Mutex::new(Stats::default());
     let harness_bug: Mutex<Option<String>> = Mutex::new(None);
     let failing = AtomicBool::new(false);
@@ -374,6 +555,12 @@ fn child_chunk<C: Check>(check: &C, cfg: &RunCfg, plan: &Plan, chunk: u64, cases
     let eval_tape = |tape: &[u8], counting: bool| -> Result<(), TestCaseError> {
         // record what we are about to do, so that a dead process identifies its input
         let idx = counter.fetch_add(1, Ordering::Relaxed);
+        if counting && skip.contains(&idx) {
+            // this input killed an earlier incarnation of this chunk
+            let mut s = stats.lock().unwrap();
+            s.evaluations += 1;
+            return Ok(());
+        }
         let mut rec = Vec::with_capacity(tape.len() + 16);
         rec.extend_from_slice(&idx.to_le_bytes());
         rec.extend_from_slice(tape);
@@ -538,8 +725,10 @@ fn structural_shrink<C: Check>(check: &C, f: &mut Found, open_sigs: &[String], w
 
 /// Evaluates one stored case in this (child) process and writes the verdict.
 fn child_eval<C: Check>(check: &C, plan: &Plan, file: &Path, out: &Path) -> i32 {
-    set_mem_limit(plan.mem_limit_mb);
-    let wd = Watchdog::start(plan.case_timeout_s * 2, out.with_extension("timeout"));
+    let mem = std::env::var("VERIF_CHILD_MEM_MB").ok().and_then(|s| s.parse().ok()).unwrap_or(plan.mem_limit_mb);
+    let tmo = std::env::var("VERIF_CHILD_TIMEOUT_S").ok().and_then(|s| s.parse().ok()).unwrap_or(plan.case_timeout_s * 2);
+    set_mem_limit(mem);
+    let wd = Watchdog::start(tmo, mem / 2, out.with_extension("timeout"));
     let (_sig, case) = match load_replay_case(file) {
         Ok(x) => x,
         Err(e) => {
@@ -574,7 +763,10 @@ fn classify_death(status: std::process::ExitStatus, stderr_path: &Path, timeout_
         return ChildEnd::Done;
     }
     if timeout_marker.exists() {
-        return ChildEnd::Died("timeout".into());
+        let txt = String::from_utf8_lossy(&std::fs::read(timeout_marker).unwrap_or_default()).to_string();
+        let class = txt.lines().next().unwrap_or("timeout").to_string();
+        let frame = dominant_frame_raw(&txt);
+        return ChildEnd::Died(format!("{}@{}", class, frame));
     }
     let err = std::fs::read_to_string(stderr_path).unwrap_or_default();
     if err.contains("memory allocation of") || err.contains("alloc") && err.contains("failed") {
@@ -590,10 +782,17 @@ fn classify_death(status: std::process::ExitStatus, stderr_path: &Path, timeout_
 }
 
 fn spawn_self(args: &[String], stderr_path: &Path, cfg: &RunCfg) -> std::io::Result<std::process::Child> {
+    spawn_self_env(args, stderr_path, cfg, &[])
+}
+
+fn spawn_self_env(args: &[String], stderr_path: &Path, cfg: &RunCfg, envs: &[(&str, String)]) -> std::io::Result<std::process::Child> {
     let exe = std::env::current_exe()?;
     let errf = std::fs::File::create(stderr_path)?;
-    std::process::Command::new(exe)
-        .args(args)
+    let mut cmd = std::process::Command::new(exe);
+    for (k, v) in envs {
+        cmd.env(k, v);
+    }
+    cmd.args(args)
         .env("VERIF_SEED", format!("{}", cfg.seed as i64))
         .env("VERIF_TIER", cfg.tier.name())
         .env("RUST_BACKTRACE", "0")
@@ -633,6 +832,101 @@ fn eval_in_child<C: Check>(check: &C, cfg: &RunCfg, file: &Path, tag: &str) -> R
     }
 }
 
+/// Shrink a case whose evaluation kills the process: candidates are evaluated in short-lived children
+/// (reduced memory/time limits), a batch at a time.
+fn shrink_death<C: Check>(check: &C, cfg: &RunCfg, f: &mut Found, class: &str) {
+    let mut case: C::Case = match serde_json::from_value(f.case_json.clone()) {
+        Ok(c) => c,
+        Err(_) => return,
+    };
+    let dir = scratch_dir(check.id());
+    let (mem, tmo) = if class.starts_with("timeout") { ("4096".to_string(), "8".to_string()) } else { ("2048".to_string(), "20".to_string()) };
+    let mut idx = 0usize;
+    let mut budget: usize = std::env::var("VERIF_SHRINK_BUDGET").ok().and_then(|s| s.parse().ok()).unwrap_or(400);
+    let mut progressed = false;
+    let t0 = Instant::now();
+    loop {
+        if budget == 0 || t0.elapsed() > Duration::from_secs(std::env::var("VERIF_SHRINK_SECS").ok().and_then(|s| s.parse().ok()).unwrap_or(420)) {
+            break;
+        }
+        // collect a batch of candidates
+        let mut batch: Vec<(usize, C::Case)> = Vec::new();
+        let mut j = idx;
+        let mut ended = false;
+        while batch.len() < cfg.workers.max(1) {
+            match check.simplify_at(&case, j) {
+                Step::End => {
+                    ended = true;
+                    break;
+                }
+                Step::Skip => j += 1,
+                Step::Candidate(c) => {
+                    batch.push((j, c));
+                    j += 1;
+                }
+            }
+        }
+        if batch.is_empty() {
+            if ended && progressed {
+                idx = 0;
+                progressed = false;
+                continue;
+            }
+            break;
+        }
+        let mut kids = Vec::new();
+        for (n, (ci, c)) in batch.iter().enumerate() {
+            budget = budget.saturating_sub(1);
+            let file = dir.join(format!("shrink-{}.json", n));
+            let out = dir.join(format!("shrink-{}.out", n));
+            let errp = dir.join(format!("shrink-{}.stderr", n));
+            let _ = std::fs::remove_file(&out);
+            let _ = std::fs::remove_file(out.with_extension("timeout"));
+            let doc = json!({"property": check.id(), "signature": f.signature, "case": serde_json::to_value(c).unwrap_or(Value::Null)});
+            let _ = std::fs::write(&file, serde_json::to_vec(&doc).unwrap());
+            let args = vec![
+                check.id().to_string(),
+                cfg.tier.name().to_string(),
+                "--eval-file".into(),
+                file.to_string_lossy().to_string(),
+                "--result".into(),
+                out.to_string_lossy().to_string(),
+            ];
+            let _ = (&mem, &tmo);
+            if let Ok(k) = spawn_self_env(&args, &errp, cfg, &[]) {
+                kids.push((n, *ci, k, out, errp));
+            }
+        }
+        let mut best: Option<(usize, usize)> = None; // (candidate index in simplify order, batch slot)
+        for (n, ci, mut k, out, errp) in kids {
+            if let Ok(st) = k.wait() {
+                if let ChildEnd::Died(c) = classify_death(st, &errp, &out.with_extension("timeout")) {
+                    if c == class && best.map(|b| ci < b.0).unwrap_or(true) {
+                        best = Some((ci, n));
+                    }
+                }
+            }
+        }
+        match best {
+            Some((ci, n)) => {
+                case = batch[n].1.clone();
+                idx = ci;
+                progressed = true;
+            }
+            None => idx = j,
+        }
+        if ended && best.is_none() {
+            if progressed {
+                idx = 0;
+                progressed = false;
+            } else {
+                break;
+            }
+        }
+    }
+    f.case_json = serde_json::to_value(&case).unwrap_or(Value::Null);
+}
+
 pub enum ChildEndOrInfra {
     Died(String),
     Infra(String),
@@ -653,6 +947,8 @@ pub struct Cli {
     pub chunk: Option<u64>,
     pub cases: Option<u64>,
     pub open_sigs: Vec<String>,
+    pub shrink_death: Option<PathBuf>,
+    pub skip: Vec<u64>,
 }
 
 pub fn parse_cli(args: &[String]) -> Cli {
@@ -668,6 +964,8 @@ pub fn parse_cli(args: &[String]) -> Cli {
         chunk: None,
         cases: None,
         open_sigs: Vec::new(),
+        shrink_death: None,
+        skip: Vec::new(),
     };
     let mut i = 0;
     while i < args.len() {
@@ -679,8 +977,14 @@ pub fn parse_cli(args: &[String]) -> Cli {
             "quick" => tier = Tier::Quick,
             "thorough" => tier = Tier::Thorough,
             "--replay" => cli.replay = next(&mut i).map(PathBuf::from),
+            "--shrink-death" => cli.shrink_death = next(&mut i).map(PathBuf::from),
             "--eval-file" => cli.eval_file = next(&mut i).map(PathBuf::from),
             "--result" => cli.result = next(&mut i).map(PathBuf::from),
+            "--skip" => {
+                if let Some(l) = next(&mut i) {
+                    cli.skip = l.split(',').filter_map(|x| x.parse().ok()).collect();
+                }
+            }
             "--chunk" => cli.chunk = next(&mut i).and_then(|s| s.parse().ok()),
             "--cases" => cli.cases = next(&mut i).and_then(|s| s.parse().ok()),
             "--open-sig" => {
@@ -707,13 +1011,37 @@ pub fn main_entry<C: Check>(check: &C, plan_for: impl Fn(Tier) -> Plan, args: &[
     let cli = parse_cli(args);
     let plan = plan_for(cli.cfg.tier);
     if let (Some(chunk), Some(cases), Some(out)) = (cli.chunk, cli.cases, cli.result.as_ref()) {
-        return crate::project::on_big_stack_scoped(512, || child_chunk(check, &cli.cfg, &plan, chunk, cases, &cli.open_sigs, out));
+        return crate::project::on_big_stack_scoped(512, || child_chunk(check, &cli.cfg, &plan, chunk, cases, &cli.open_sigs, &cli.skip, out));
     }
     if let (Some(file), Some(out)) = (cli.eval_file.as_ref(), cli.result.as_ref()) {
         return crate::project::on_big_stack_scoped(512, || child_eval(check, &plan, file, out));
     }
     if let Some(path) = cli.replay.as_ref() {
         return replay_main(check, &cli.cfg, path);
+    }
+    if let Some(path) = cli.shrink_death.as_ref() {
+        // developer tool: minimise a stored case whose evaluation kills the process
+        let (sig, case) = match load_replay_case(path) {
+            Ok(x) => x,
+            Err(e) => {
+                println!("INFRA: {}", e);
+                return 2;
+            }
+        };
+        let class = match eval_in_child(check, &cli.cfg, path, "shrinkprobe") {
+            Err(ChildEndOrInfra::Died(c)) => c,
+            _ => {
+                println!("the case does not kill the evaluating process");
+                return 0;
+            }
+        };
+        let mut f = Found { signature: sig, detail: format!("died: {}", class), case_json: case };
+        shrink_death(check, &cli.cfg, &mut f, &class);
+        let out = path.with_extension("min.json");
+        let doc = json!({"property": check.id(), "signature": f.signature, "detail": f.detail, "case": f.case_json});
+        let _ = std::fs::write(&out, serde_json::to_string_pretty(&doc).unwrap());
+        println!("wrote {}", out.display());
+        return 0;
     }
     run_parent(check, &cli.cfg, &plan)
 }
@@ -842,17 +1170,17 @@ fn run_parent<C: Check>(check: &C, cfg: &RunCfg, plan: &Plan) -> i32 {
     // 3. generated search, chunked over child processes
     let mut stats = Stats::default();
     let n_chunks = (plan.cases + plan.chunk - 1) / plan.chunk;
-    let mut next_chunk = 0u64;
-    let mut running: Vec<(u64, std::process::Child, PathBuf, PathBuf)> = Vec::new();
+    let mut queue: std::collections::VecDeque<(u64, Vec<u64>)> = (0..n_chunks).map(|k| (k, Vec::new())).collect();
+    let mut running: Vec<(u64, std::process::Child, PathBuf, PathBuf, Vec<u64>)> = Vec::new();
     let mut deaths: BTreeMap<String, u64> = BTreeMap::new();
     let mut death_samples: Vec<Value> = Vec::new();
     let mut seen_sigs: HashSet<String> = HashSet::new();
     let mut lost_cases = 0u64;
     let mut stop_spawning = false;
+    let mut pending_deaths: Vec<(Found, String)> = Vec::new();
     loop {
-        while !stop_spawning && running.len() < cfg.workers.max(1) && next_chunk < n_chunks {
-            let k = next_chunk;
-            next_chunk += 1;
+        while !stop_spawning && running.len() < cfg.workers.max(1) && !queue.is_empty() {
+            let (k, skips) = queue.pop_front().unwrap();
             let cases = plan.chunk.min(plan.cases - k * plan.chunk);
             let out = dir.join(format!("chunk-{}.json", k));
             let errp = dir.join(format!("chunk-{}.stderr", k));
@@ -870,8 +1198,14 @@ fn run_parent<C: Check>(check: &C, cfg: &RunCfg, plan: &Plan) -> i32 {
                 args.push("--open-sig".into());
                 args.push(s.clone());
             }
+            if !skips.is_empty() {
+                args.push("--skip".into());
+                args.push(skips.iter().map(|x| x.to_string()).collect::<Vec<_>>().join(","));
+            }
+            let _ = std::fs::remove_file(&out);
+            let _ = std::fs::remove_file(out.with_extension("timeout"));
             match spawn_self(&args, &errp, cfg) {
-                Ok(c) => running.push((k, c, out, errp)),
+                Ok(c) => running.push((k, c, out, errp, skips)),
                 Err(e) => {
                     infra_errors.push(format!("spawn: {}", e));
                     stop_spawning = true;
@@ -892,7 +1226,7 @@ fn run_parent<C: Check>(check: &C, cfg: &RunCfg, plan: &Plan) -> i32 {
             };
             if let Some(st) = done {
                 progressed = true;
-                let (k, _c, out, errp) = running.remove(i);
+                let (k, _c, out, errp, mut skips) = running.remove(i);
                 match classify_death(st, &errp, &out.with_extension("timeout")) {
                     ChildEnd::Done => match std::fs::read(&out).ok().and_then(|b| serde_json::from_slice::<ChunkResult>(&b).ok()) {
                         Some(r) => {
@@ -924,9 +1258,15 @@ fn run_parent<C: Check>(check: &C, cfg: &RunCfg, plan: &Plan) -> i32 {
                         } else {
                             (0, Vec::new())
                         };
-                        let cases = plan.chunk.min(plan.cases - k * plan.chunk);
-                        lost_cases += cases.saturating_sub(idx);
                         *deaths.entry(class.clone()).or_default() += 1;
+                        // run the chunk again without the deadly input (at most 8 times)
+                        if rec.len() >= 8 && skips.len() < 8 && !skips.contains(&idx) {
+                            skips.push(idx);
+                            queue.push_back((k, skips.clone()));
+                        } else {
+                            let cases = plan.chunk.min(plan.cases - k * plan.chunk);
+                            lost_cases += cases;
+                        }
                         let mut u = Unstructured::new(&tape);
                         let case = guarded(|| check.generate(&mut u, cfg.tier)).ok().flatten();
                         let case_json = case.as_ref().map(|c| serde_json::to_value(c).unwrap_or(Value::Null)).unwrap_or(Value::Null);
@@ -940,8 +1280,7 @@ fn run_parent<C: Check>(check: &C, cfg: &RunCfg, plan: &Plan) -> i32 {
                             if open_sigs.iter().any(|s| s == &f.signature) {
                                 *stats.excluded_known.entry(f.signature.clone()).or_default() += 1;
                             } else if seen_sigs.insert(f.signature.clone()) {
-                                let p = write_replay(id, &f, cfg.seed, cfg.tier, "found");
-                                violations.push((f, p));
+                                pending_deaths.push((f, class.clone()));
                             }
                         } else {
                             *stats.discards.entry(format!("child-died-{}", class)).or_default() += 1;
@@ -962,6 +1301,11 @@ fn run_parent<C: Check>(check: &C, cfg: &RunCfg, plan: &Plan) -> i32 {
         if !progressed {
             std::thread::sleep(Duration::from_millis(15));
         }
+    }
+    for (mut f, class) in pending_deaths {
+        shrink_death(check, cfg, &mut f, &class);
+        let p = write_replay(id, &f, cfg.seed, cfg.tier, "found");
+        violations.push((f, p));
     }
     if !deaths.is_empty() {
         stats.extra.insert("child_deaths".into(), json!(deaths));
